@@ -173,6 +173,84 @@ func c20Setup(prm c20Params) func(c *fw.Ctx, name string) explore.Setup {
 	}
 }
 
+// Concurrent family: two Close calls race with a CloseRead that is issued while
+// the close handshake is in progress. The peer's Close frame (the only thing
+// that can close the connection at virtual time 0) is sent after CloseRead has
+// returned, so the CloseRead goroutine exists before the connection closes and
+// every returning Close has to have waited for it.
+type c20ConcState struct {
+	p        *vpipe.Pipe
+	live     [2][]string
+	ended    [2]bool
+	errs     [2]error
+	crInTime bool
+}
+
+func c20ConcSetup(k connCfg, second string, crFirst bool) func(c *fw.Ctx, name string) explore.Setup {
+	return func(c *fw.Ctx, name string) explore.Setup {
+		return func(w *vs.World) func(bool) {
+			st := &c20ConcState{p: vpipe.New()}
+			w.GoHarness("main", true, func() {
+				conn := mkConn(st.p, k)
+				bg := vctx.Background()
+				t0 := w.Now
+				closeReader := func() {
+					conn.CloseRead(bg)
+					st.crInTime = w.Now == t0 && !st.p.Closed
+					var cf frame.Frame
+					if st.p.WaitOut("close-frame", func(out []byte) bool {
+						f, ok := firstClose(out)
+						cf = f
+						return ok
+					}) {
+						st.p.Send(peerFrame(k, frame.Frame{Fin: true, Opcode: frame.OpClose, Payload: cf.Payload}))
+					}
+				}
+				if crFirst {
+					w.GoHarness("closereader", false, closeReader)
+				}
+				for i := 0; i < 2; i++ {
+					i := i
+					w.GoHarness(fmt.Sprintf("closer%d", i), true, func() {
+						if i == 1 && second == "CloseNow" {
+							st.errs[i] = conn.CloseNow()
+						} else {
+							st.errs[i] = conn.Close(websocket.StatusNormalClosure, "")
+						}
+						st.live[i] = w.LiveLib()
+						st.ended[i] = true
+					})
+				}
+				if !crFirst {
+					w.GoHarness("closereader", false, closeReader)
+				}
+			})
+			return func(complete bool) {
+				if !complete {
+					return
+				}
+				locus := "conc-closeread/Close+" + second + "/" + k.String()
+				if w.Panic != "" {
+					violate(c, w, name, "C20/panic/"+locus, w.Panic)
+					return
+				}
+				c.OutcomeStr(fmt.Sprintf("%s|ended=%v|live=%d,%d|intime=%v|e0=%v|e1=%v", name, st.ended, len(st.live[0]), len(st.live[1]), st.crInTime, st.errs[0] != nil, st.errs[1] != nil))
+				if !st.crInTime {
+					// CloseRead raced with the closing of the connection: its goroutine may
+					// legitimately be younger than a Close that has already sampled
+					return
+				}
+				for i := 0; i < 2; i++ {
+					if st.ended[i] && len(st.live[i]) > 0 {
+						violate(c, w, name, "C20/goroutine-outlives-close/"+locus, fmt.Sprintf("closer %d returned (err=%v) while these library goroutines were still alive: %v (CloseRead had returned before the connection was closed)", i, st.errs[i], st.live[i]))
+						return
+					}
+				}
+			}
+		}
+	}
+}
+
 // histKind abstracts a history to the features that matter for goroutines.
 func histKind(h []string) string {
 	var k []string
@@ -224,6 +302,24 @@ func c20Scenarios(tier string) []scenario {
 					g = fmt.Sprintf("%s/%s/%d", e, k.String(), hi%4)
 				}
 				scs = append(scs, scenario{Name: prm.name(), Cfg: cfg, Setup: c20Setup(prm), Group: g})
+			}
+		}
+	}
+	for _, k := range []connCfg{{Client: false}, {Client: true}} {
+		for _, second := range []string{"Close", "CloseNow"} {
+			for _, crFirst := range []bool{false, true} {
+				// quick: two graceful Closes at 2 preemptions; thorough adds the CloseNow
+				// partner (many more schedules, as it closes the connection at any point)
+				// and the other spawn order
+				pc := 2
+				if tier != "thorough" && (crFirst || second == "CloseNow") {
+					continue
+				}
+				if second == "CloseNow" {
+					pc = 1
+				}
+				n := fmt.Sprintf("conc-closeread/Close+%s/crfirst=%v/%s", second, crFirst, k.String())
+				scs = append(scs, scenario{Name: n, Cfg: explore.Config{P: pc, T: 0, E: 0, Horizon: 120e9}, Setup: c20ConcSetup(k, second, crFirst), Shards: 4})
 			}
 		}
 	}
